@@ -35,7 +35,10 @@ CONSTANTS
     Special,     \* subset of the special classes below that are generated
     KeyLeaves,   \* leaf indices allowed in key / choice slots (value is a key on every row) besides faults
     FaultLeaves, \* leaf indices that are faults in some context
-    MaxOps, Thin, Salt
+    MaxOps, Thin, Salt,
+    Chain        \* BOOLEAN: generate only CHAINS: a logit whose keys do not match, wrapped again and again (each new
+                 \*   operator takes the previous one as an operand, the other operands are the key-valued leaves):
+                 \*   a fault that only the recursive audit can see, at depth MaxOps
 
 VARIABLES nodes, done
 vars == <<nodes, done>>
@@ -128,12 +131,19 @@ Hash(n) == HashSeq(n.kids, (IndexOf(AllOpNames, n.op) * 131 + Len(n.avkeys)) % 1
 RECURSIVE IPow(_, _)
 IPow(b, e) == IF e = 0 THEN 1 ELSE b * IPow(b, e - 1)
 Accept(n, lvl) == LET b == Thin[IF lvl <= Len(Thin) THEN lvl ELSE Len(Thin)]
-                      m == IPow(b, IF Len(n.kids) <= 5 THEN Len(n.kids) - 1 ELSE 4)
-                  IN  b = 1 \/ n.op = "_bioLogLogitKeys" \/ (Hash(n) + Salt) % m = 0     \* the key-list cases are few: all kept
+                      m == IF Chain THEN b ELSE IPow(b, IF Len(n.kids) <= 5 THEN Len(n.kids) - 1 ELSE 4)
+                  IN  b = 1 \/ (~Chain /\ n.op = "_bioLogLogitKeys") \/ (Hash(n) + Salt) % m = 0     \* the key-list cases are few: all kept
 Unused(ns) == {i \in (NL + 1)..Len(ns) :
                  ~\E j \in (i + 1)..Len(ns) : \E q \in 1..Len(ns[j].kids) : ns[j].kids[q] = i}
 Useful(n) == (NOps(nodes) + 1 = MaxOps) => Unused(nodes) \subseteq SeqToSet(n.kids)
-Try(n) == IF Useful(n) /\ Accept(n, NOps(nodes) + 1) THEN nodes' = Append(nodes, n) /\ UNCHANGED done ELSE FALSE
+ChainOK(n) ==
+    ~Chain \/
+    IF NOps(nodes) = 0
+    THEN /\ n.op \in {"_bioLogLogit", "_bioLogLogitKeys"} /\ n.keys # n.avkeys
+         /\ \A q \in 1..Len(n.kids) : n.kids[q] \in KeyLeaves
+    ELSE /\ \E q \in 1..Len(n.kids) : n.kids[q] = Len(nodes)
+         /\ \A q \in 1..Len(n.kids) : n.kids[q] = Len(nodes) \/ n.kids[q] \in KeyLeaves
+Try(n) == IF Useful(n) /\ ChainOK(n) /\ Accept(n, NOps(nodes) + 1) THEN nodes' = Append(nodes, n) /\ UNCHANGED done ELSE FALSE
 
 Init == nodes = InitNodes /\ done = FALSE
 CanAdd == ~done /\ NOps(nodes) < MaxOps
